@@ -156,4 +156,14 @@ CHECKS['C11'] = {
   'technique': 'guard evaluation under dominance, partial evaluation of cursor functions, mirror-image sibling comparison, who-may-call rules',
 }
 
+CHECKS['C03'] = {
+  'text': 'Decides the ordered-map structure of Tree without the balancing proof: descent operand order and direction convention '
+          'agree across get/mem/set/rem (branch conditions evaluated for c in {-1,0,1}); rotations and cursors are mirror images; every '
+          'child-link store is paired with the parent-link update; tag-bit accessors preserve the other half of the word; absent keys '
+          'raise; count/alloc/free pairing; node layout and predecessor copy extents; colour transfers read before recolouring. The '
+          'red-black colour/black-height invariants (height bound) are NOT decided.',
+  'note': ASSUME,
+  'technique': 'sign-guided CFG walk, mirror-image comparison, must-pass pairing, polynomial layout comparison, data-dependence ordering',
+}
+
 NOT_APPLICABLE = {}
